@@ -229,7 +229,7 @@ func inhabitedPos(pool []constant.Value, typ types.Type, isLen bool, ordered boo
 			continue
 		}
 		g := p / 2
-		if isStringType(typ) && g == 0 && len(pool) > 0 && constant.StringVal(pool[0]) == "" {
+		if isStringType(typ) && g == 0 && len(pool) > 0 && pool[0].Kind() == constant.String && constant.StringVal(pool[0]) == "" {
 			continue // nothing sorts below ""
 		}
 		if !isStringType(typ) && g > 0 && g < len(pool) {
@@ -265,6 +265,9 @@ func isBoolType(t types.Type) bool {
 func constLess(a, b constant.Value) bool {
 	if a.Kind() == constant.String && b.Kind() == constant.String {
 		return constant.StringVal(a) < constant.StringVal(b)
+	}
+	if a.Kind() == constant.Bool && b.Kind() == constant.Bool {
+		return !constant.BoolVal(a) && constant.BoolVal(b) // only used to tell booleans apart
 	}
 	return constant.Compare(a, token.LSS, b)
 }
